@@ -109,7 +109,7 @@ def listed(s, arg, all_lines):
     return got, err
 
 
-def check_labels(s, shown, exps, case, V):
+def check_labels(s, shown, exps, case, V, also_as_filter=False):
     """shown: message lines as displayed live, in order; exps: (conn name, exp)."""
     sets = ref_sets(exps)
     labels_per_conn = {}
@@ -121,6 +121,9 @@ def check_labels(s, shown, exps, case, V):
     for (cn, lab), want in sorted(sets.items()):
         short = lab.split('@', 1)[1]
         for spelling in ('%s: %s' % (cn, short), '%s:%s' % (cn, short)):
+            if also_as_filter:
+                # the label is first added to the output filter, then asked for: the very same text, used twice
+                s.cmd('filter ' + spelling)
             got, err = listed(s, spelling, shown)
             want_lines = [shown[i] for i in sorted(want)]
             if got != want_lines or err:
@@ -191,7 +194,7 @@ def eval_history(case):
             if not V and len(case.get('history', [])) % 2 == 0:
                 # the same queries with an output filter active: a label used as a matcher still selects its own lines only
                 s.cmd('filter wl_registry')
-                check_labels(s, shown, exps, case, V)
+                check_labels(s, shown, exps, case, V, also_as_filter=True)
     except Exception:
         V.append(sut.exc_violation(case))
     return Eval(V, outcome=len(V), nontrivial=hc.nontrivial(case.get('history', [])) or 'scripts' in case,
